@@ -83,6 +83,7 @@ def run(tier, seed, replay=None):
         r = orig(s, eps); rec.append((np.array(s, copy=True), float(eps), int(r))); return r
     replay_cases, replay_meta, len_cases, len_meta = [], [], [], []
     n_tie = 0
+    n_identity = 0
     try:
         D.rank_chop = spy
         for i in range(n):
@@ -129,6 +130,12 @@ def run(tier, seed, replay=None):
                         V.fail("rank after round exceeds the rank of the unfolding [%s]" % fam, dict(desc, Ry=Ry, bond=k, unfolding_rank=ur))
             if str(y.cores[0].dtype) != str(dtype):
                 V.fail("dtype changed by round", dict(desc, got=str(y.cores[0].dtype)))
+            # the matrix-level model (C02_sweep_error_eq): squared error = sum of the energies discarded at the bonds
+            if d > 1 and len(rec) == d - 1:
+                disc = sum(float(np.sum(np.abs(s_[Ry[d - 1 - b]:].astype(np.float64)) ** 2)) for b, (s_, _, _) in enumerate(rec))
+                n_identity += 1
+                if abs(err * err - disc) > (1e-4 if f32 else 1e-9) * nrm * nrm + 1e-300:
+                    V.fail("squared rounding error differs from the sum of the discarded energies [%s]" % fam, dict(desc, err2=err * err, discarded=disc, Ry=Ry))
             # decisions
             ns = [int(m) * int(n_) for m, n_ in zip(x.M, x.N)] if is_ttm else [int(v) for v in x.N]
             if d > 1:
@@ -171,7 +178,8 @@ def run(tier, seed, replay=None):
               "in the Coq model in exact integer arithmetic, spectrum lengths are compared with the shape-level model (qr_ranks, svd_lengths), the threshold with eps/sqrt(d-1)*||S||, "
               "the first spectrum norm with ||x||; error, rank and shape bounds and bitwise integrity of the operand are measured; non-trivial = a replayed decision; distinct = distinct case descriptions"),
         samples=samples, distribution=dist, rank_decisions_replayed=len(replay_cases), rank_decisions_agree=n_ok, spectrum_length_traces=len(len_cases),
-        spectrum_length_agree=n_len_ok, near_ties_skipped=n_tie, known_findings_reproduced=V.known_hit,
-        partial=["the link 'sum of the per-bond discarded energies = squared rounding error' (orthogonality of the QR/SVD factors) is measured on every case, not proved"])
+        spectrum_length_agree=n_len_ok, near_ties_skipped=n_tie, error_equals_sum_of_discarded_energies_checked=n_identity, known_findings_reproduced=V.known_hit,
+        partial=["floating-point round-off, LAPACK QR/SVD modelled as exact (oracle hypotheses of tt_svd_error_bound: orthonormal kept factors, spectrum = energies); the derived identity "
+                 "'squared error = sum of discarded energies' is also measured on every case"])
     common.write_evidence(PID, tier, seed, cov, time.time() - t0, nviol, common.TRUSTED_BASE)
     return 1 if nviol else 0
